@@ -232,3 +232,15 @@ func init() {
 		fmt.Println("dbg explore:", r.Executions, r.Diverged)
 	})
 }
+
+func init() {
+	extraSelf = append(extraSelf, func() {
+		w, err := newWorld(InstCfg{})
+		if err != nil {
+			return
+		}
+		defer w.Close()
+		o := w.Do(cmd("COMMAND", "LIST"))
+		fmt.Printf("COMMAND LIST (%d): %v\n", len(o.V.Arr), o.V.Strs())
+	})
+}
